@@ -164,7 +164,9 @@ def rule_text(r, v, last=False):
             t += W(v, True) + v["quote"] + r["name"] + v["quote"]
         return t + W(v) + ";"
     if k == "namespace":
-        return case("@namespace", v) + (W(v, True) + r["prefix"] if r["prefix"] else "") + W(v, True) + v["quote"] + r["uri"] + v["quote"] + W(v) + ";"
+        # the namespace name as string or as url() (two of the six spelling vectors)
+        uri = comp_text({"t": "URI", "x": "url(%s)" % r["uri"]}, v) if v["id"] in ("comments", "tab-upper-cm") else v["quote"] + r["uri"] + v["quote"]
+        return case("@namespace", v) + (W(v, True) + r["prefix"] if r["prefix"] else "") + W(v, True) + uri + W(v) + ";"
     if k == "page":
         inner = body_text(r["body"], v)
         if r["margins"]:
